@@ -9,11 +9,16 @@ Three kinds of operations (one line each, self-contained):
   tp via=<open|dial> host=<ip4|ip6|dns|dns4|dns6> d=<i> l=<j> exp=<k|none>    two real TcpTransports on loopback: the real
                                                                          Transport::open(id,[addr]) (+negotiate) / dial(id,addr)
                                                                          with /<host>/tcp/<port>[/p2p/<peer of key k>]
+                                                                         (observation since round tcp3: `… ep=<host kind of the
+                                                                         connection's endpoint address>`, judged by C10)
+  pn q=<items> [in=<n> acc=<0|1>] [neg=1]                                a real TcpTransport with scripted READY results in its queues,
+                                                                         polled with a counting waker (checks/tcp_poll.py; judged by C05)
 Payloads are built here by hand (protobuf) with REAL ed25519 signatures obtained from the adapter's `sign`/`pubkey`
 operations (deterministic keys 0..15) before the cases are run.
 """
 import hashlib, os, subprocess
 from .common import bump
+from . import tcp_poll
 
 ID = "C01"
 AREA = "c01"
@@ -634,6 +639,7 @@ def gen_cases(rng, tier):
         if NC_READY:
             yield from chunks(nc_ops(rng, False), 5)
             yield from chunks(tp_ops(rng, False), 6)
+            yield from tcp_poll.gen_cases(rng, tier)
     elif tier == "search":
         yield from gen_pv_cases(rng, 60, 12)
         for _ in range(150):
@@ -648,6 +654,7 @@ def gen_cases(rng, tier):
         if NC_READY:
             yield from chunks(nc_ops(rng, True), 6)
             yield from chunks(tp_ops(rng, True), 6)
+            yield from tcp_poll.gen_cases(rng, tier)
 
 
 # ------------------------------------------------------------------ checker mode: verify / point validity from the primitives
@@ -691,6 +698,22 @@ def hs_args(t):
     a = kvs(t)
     acts = {k: a.get(f"m{k}", "pass") for k in (1, 2, 3)}
     return a, acts
+
+
+def tp_endpoint_oracle(case, out, i):
+    """C10 ("dial successes and failures re-score exactly the address used"): the endpoint address the transport reports
+    for an established connection — the address the manager credits — is the address that was dialed, for every host kind."""
+    t = case[i].split()
+    o = out[i] if i < len(out) else ""
+    if not t or t[0] != "tp" or not o.startswith("D=") or " ep=" not in o:
+        return []
+    a = kvs(t[1:])
+    ep = o.split(" ep=", 1)[1].split()[0]
+    if ep == a.get("host"):
+        return []
+    return [{"kind": "endpoint-address", "step": i, "op": case[i], "out": o,
+             "msg": f"TcpTransport::{a.get('via')} of /{a.get('host')}/localhost/tcp/<port> succeeded, the connection's endpoint address is "
+                    f"/{ep}/...: the manager credits an address that was not the one dialed (and leaves the dialed one untested)"}]
 
 
 def oracle(case, out):
@@ -783,8 +806,9 @@ def oracle(case, out):
                 a = kvs(t[1:])
                 if not o.startswith("D=") or o[2:] in TP_ENV:
                     continue            # the sandbox could not resolve / reach / schedule: a distinct observation, no verdict
-                what, _, rest = o[2:].partition(":")
-                connected = what in ("opened", "established")
+                first, _, epart = o[2:].partition(" ")
+                what, _, rest = first.partition(":")
+                connected = what in ("opened", "established")      # (the `ep=` part is C10's subject: tp_endpoint_oracle)
                 where = f"TcpTransport::{a['via']} with a /{a['host']}/ address"
                 if a["exp"] not in ("none", a["l"]):
                     if connected:
@@ -803,6 +827,7 @@ def oracle(case, out):
 
 
 def stats(case, out, acc):
+    tcp_poll.stats(case, out, acc)
     for op, o in zip(case, out):
         t = op.split("#")
         w = t[0].split()
